@@ -63,3 +63,29 @@ Example C11_fragment_F1_excludes :
   in_fragment_F1 [[ADevice 1 (mkName false 0 false [seg4 0x41 0x42 0x43 0x44; seg4 0x41 0x42 0x43 0x44]) []]] = false /\
   in_fragment_F1 [[AMethod 1 (f0_nm 0x4d 0x54 0x48 0x30) 0 []]] = false.
 Proof. vm_compute. repeat split. Qed.
+
+(** ---- F2: Methods whose bodies hold declarations ---- *)
+Definition f2_program : list (list ast) :=
+  [[AMethod 1 (f0_nm 0x4d 0x54 0x48 0x30) 2 [];
+    ADevice 2 (f0_nm 0x44 0x45 0x56 0x30)
+      [AMethod 1 (f0_nm 0x5f 0x53 0x54 0x41) 0 [AName (f0_nm 0x4c 0x4f 0x43 0x30) (AConst OP_BYTE 1)];
+       AName (f0_nm 0x4e 0x41 0x4d 0x30) (AConst OP_DWORD 0xcafe);
+       AMethod 2 (f0_nm 0x4d 0x54 0x48 0x31) 0x83 [ADevice 1 (f0_nm 0x44 0x45 0x56 0x31) []; AMethod 1 (f0_nm 0x4d 0x54 0x48 0x32) 7 []]];
+    AName (f0_nm 0x5a 0x5a 0x5a 0x5a) (AConst 0x00 0)]].
+
+Example C11_parse_encode_partial_F2_nonvacuous :
+  wf_program f2_program = true /\ in_fragment_F2 f2_program = true /\ in_fragment_F1 f2_program = false /\
+  in_fragment_F2 f1_program = true /\ in_fragment_F2 f0_program = true.
+Proof. vm_compute. repeat split. Qed.
+
+Example C11_parse_encode_partial_F2_instance : parse_encode_statement f2_program.
+Proof. apply C11_parse_encode_partial_F2; vm_compute; reflexivity. Qed.
+
+Example C11_parse_encode_partial_F2_run : parse_program f2_program = (0, ns f2_program) /\ length (ns f2_program) = 9%nat.
+Proof. vm_compute. split; reflexivity. Qed.
+
+(** outside F2: a Method with an executable statement, a Scope block *)
+Example C11_fragment_F2_excludes :
+  in_fragment_F2 [[AMethod 1 (f0_nm 0x4d 0x54 0x48 0x30) 0 [AOp 0xa4 [AConst 0x01 0]]]] = false /\
+  in_fragment_F2 [[AScope 1 (mkName true 0 false [seg4 0x5f 0x53 0x42 0x5f]) []]] = false.
+Proof. vm_compute. repeat split. Qed.
